@@ -715,7 +715,12 @@ class QvmCpu:
         if len(value) == 0:
             self.trap(TrapCode.INVALID_OPERAND_VALUE,
                       desc='ASC does not accept empty strings')
-        self.push(CellType.INTEGER, ord(value[0]))
+        try:
+            # the character code in code page 437, the inverse of CHR$
+            code = value[0].encode('cp437')[0]
+        except UnicodeEncodeError:
+            code = ord(value[0])
+        self.push(CellType.INTEGER, code)
 
     def _exec_call(self, target):
         self.push(CellType.LONG, self.pc)
@@ -783,9 +788,19 @@ class QvmCpu:
                       expected=a.type,
                       got=b.type)
 
-        if a.value == b.value:
+        left, right = a.value, b.value
+        if a.type == CellType.STRING:
+            # strings are ordered by their character codes (code page
+            # 437), not by the Unicode code points python holds them in
+            try:
+                left = left.encode('cp437')
+                right = right.encode('cp437')
+            except UnicodeEncodeError:
+                left, right = a.value, b.value
+
+        if left == right:
             result = 0
-        elif a.value < b.value:
+        elif left < right:
             result = -1
         else:
             result = 1
